@@ -140,8 +140,13 @@ def _contended(tape, cfg, pol, excs, k) -> dict:
         steps.append({"name": "h", "accepts": ["StepFailedEvent"], "workers": 1, "sync": False, "retry": None, "role": "catch",
                       "for_steps": None, "max_recoveries": 1, "scripts": {"StepFailedEvent": [("ret", None)]},
                       "returns": [], "stop": False})
+    sibling = tape.chance(cfg.get("p_sibling", 35), 100, "sibling?")
+    if sibling:
+        # a second consumer of the same event type that never fails and has no policy: another step's retries are none of its business
+        steps.insert(2, {"name": "sib", "accepts": ["E0"], "workers": 2, "sync": False, "retry": None, "role": "step",
+                         "scripts": {"E0": [("work", "work3"), ("ret", None)]}, "returns": [], "stop": False})
     return {"steps": steps, "types": ["E0"], "timeout": None, "driver": "finish", "disable_validation": False, "contended": True,
-            "fan": n, "workers": workers}
+            "fan": n, "workers": workers, "sibling": sibling}
 
 
 def deliveries(recs, step="s0"):
